@@ -13,8 +13,8 @@ SEEDS=${@:-$(ls $SEEDS_DIR | grep -v RESULTS)}
 for s in $SEEDS; do
   prop=$(python3 -c "import json;print(json.load(open('$SEEDS_DIR/$s/meta.json'))['property'])")
   git -C $WT checkout -q -- . ; git -C $WT apply $SEEDS_DIR/$s/patch.diff || { echo -e "$s\t$prop\tAPPLY-FAILED" >> $OUT; continue; }
-  VERIF_REPO=$WT VERIF_JOBS=${VERIF_JOBS:-16} timeout 2400 ./check $prop --tier quick > /tmp/mx_$s.log 2>&1; rc=$?
-  line=$(grep -E "^== $prop:" /tmp/mx_$s.log | tail -1)
+  VERIF_REPO=$WT VERIF_JOBS=${VERIF_JOBS:-16} timeout 2400 ./check $prop --tier quick > /tmp/mx_$$_$s.log 2>&1; rc=$?
+  line=$(grep -E "^== $prop:" /tmp/mx_$$_$s.log | tail -1)
   echo -e "$s\t$prop\trc=$rc\t$line" >> $OUT
   echo "$s $prop rc=$rc"
 done
